@@ -56,6 +56,8 @@ def run(c):
     for m, w in wants:
         bym.setdefault(m, []).append(w)
         cases.append(dict(k="puree", m=m, mand=w["mand"], opt=w["opt"], pre=rng.choice([0, 1, 17])))
+        if rng.random() < 0.15:         # the same message assembled by hand: the outer header view carries the message type only
+            cases.append(dict(k="puree", m=m, mand=w["mand"], opt=w["opt"], pre=rng.choice([0, 5]), hz=True))
         c.count_distinct(("e", m, json.dumps(w, sort_keys=True)))
     for m, ws in bym.items():
         full = merge_wants(m, ws)
